@@ -158,8 +158,11 @@ type Summ struct {
 }
 
 func newSumm(p *Prog, depth int) *Summ {
+	if p.nilFns == nil {
+		p.nilFns = alwaysNilFns(p)
+	}
 	return &Summ{P: p, Ix: p.Index(), MaxDepth: depth, MaxPaths: 4096, NoInline: map[string]bool{},
-		EngineAliases: true, loopsOf: map[*ssa.Function][]*Loop{}}
+		EngineAliases: true, loopsOf: map[*ssa.Function][]*Loop{}, NilFns: p.nilFns}
 }
 
 func (s *Summ) loops(fn *ssa.Function) []*Loop {
